@@ -343,7 +343,8 @@ class TraceRun:
     # -- run -----------------------------------------------------------------------------
     def run(self):
         cfg = self.plan["cfg"]
-        self.w = W.World(cfg["backend"], cfg.get("bitlength"), cfg.get("resolution"))
+        self.w = W.World(cfg["backend"], cfg.get("bitlength"), cfg.get("resolution"),
+                         late_modulus=cfg.get("late_modulus"))
         w = self.w
         rec = w.rec
         if self.world_hook:
